@@ -289,10 +289,10 @@ Qed.
 (* ------------------------------------------------------------------ depth *)
 
 Definition bounded (n : nat) (ms : list (list (string * cval))) : Prop :=
-  Forall (fun m => depth (CMap m) < n) ms.
+  Forall (fun m => depth (CMap 0 m) < n) ms.
 Definition vbounded (n : nat) (vs : list cval) : Prop := Forall (fun v => depth v < n) vs.
 
-Lemma depth_alist_get k m v : alist_get k m = Some v -> depth v < depth (CMap m).
+Lemma depth_alist_get mt k m v : alist_get k m = Some v -> depth v < depth (CMap mt m).
 Proof.
   cbn [depth]. induction m as [|[k' v'] m IH]; cbn; [discriminate|].
   destruct (String.eqb k k').
@@ -305,7 +305,7 @@ Proof.
   unfold bounded, vbounded, vals_at. induction ms as [|m ms IH]; cbn; intros H; [constructor|].
   inversion H; subst. apply Forall_app. split; [|auto].
   destruct (alist_get k m) eqn:E; [|constructor].
-  constructor; [|constructor]. apply depth_alist_get in E. cbn [depth] in *. lia.
+  constructor; [|constructor]. apply (depth_alist_get 0%N) in E. cbn [depth] in *. lia.
 Qed.
 
 Lemma maps_bounded n vs : vbounded n vs -> bounded n (maps vs).
@@ -333,7 +333,7 @@ Qed.
 Lemma bounded_top ms : bounded (S (dmaps ms)) ms.
 Proof.
   unfold bounded, dmaps. apply Forall_forall. intros m H.
-  assert (In (CMap m) (map CMap ms)) by (apply in_map, H).
+  assert (In (CMap 0 m) (map (CMap 0) ms)) by (apply (in_map (CMap 0)), H).
   apply depth_list_ge in H0. lia.
 Qed.
 
@@ -377,9 +377,9 @@ Proof.
   induction f1 as [|f1 IH]; intros f2 ms B1 B2 P1 P2; [lia|].
   destruct f2 as [|f2]; [lia|]. cbn [concat_maps]. apply step_ext. intros k Hk.
   apply keys_of_In in Hk. destruct Hk as [m [Hm _]].
-  pose proof (Forall_forall (fun m => depth (CMap m) < S f1) ms) as F1.
+  pose proof (Forall_forall (fun m => depth (CMap 0 m) < S f1) ms) as F1.
   pose proof (proj1 F1 B1 m Hm) as D1.
-  pose proof (proj1 (Forall_forall (fun m => depth (CMap m) < S f2) ms) B2 m Hm) as D2.
+  pose proof (proj1 (Forall_forall (fun m => depth (CMap 0 m) < S f2) ms) B2 m Hm) as D2.
   cbn [depth] in D1, D2.
   apply IH; try lia.
   - apply maps_bounded, vals_at_bounded, B1.
@@ -483,7 +483,7 @@ Section Key.
     intros Hne Hs Hr Hb.
     assert (Hne' : vs ++ fr <> []) by (destruct vs; [congruence|discriminate]).
     assert (Hs' : same_types t (vs ++ fr) = true) by (rewrite same_types_app, Hs, Hr; reflexivity).
-    destruct t as [|k|tag|].
+    destruct t as [|k|tag|mt].
     - rewrite (typed_str f vs Hne Hs). split; [reflexivity|].
       rewrite typed_str; [|discriminate|cbn; exact Hr].
       rewrite (typed_str f (vs ++ fr) Hne' Hs').
@@ -509,7 +509,7 @@ Section Key.
       rewrite maps_app.
       destruct (f (maps vs)) as [c| |]; cbn [res_map].
       + split; [reflexivity|]. cbn [maps flat_map app]. apply req_res_map.
-        change (flat_map (fun v : cval => match v with CMap m => [m] | _ => [] end) fr) with (maps fr).
+        change (flat_map (fun v : cval => match v with CMap _ m => [m] | _ => [] end) fr) with (maps fr).
         exact H.
       + apply fails_res_map, H.
       + apply fails_res_map, H.
@@ -625,32 +625,43 @@ Proof. apply (concat_maps_rechunk_n (S (dmaps (xs ++ ys)))), bounded_top. Qed.
 
 (* ------------------------------------------------------------------ statically typed item lists *)
 
-Lemma maps_of_all_maps vs : same_types TMap vs = true -> map CMap (maps vs) = vs.
+Lemma maps_of_all_maps mt vs : same_types (TMap mt) vs = true -> map (CMap mt) (maps vs) = vs.
 Proof.
   unfold maps. induction vs as [|v vs IH]; cbn; [reflexivity|].
-  destruct v; cbn; try discriminate. intros H. rewrite IH by exact H. reflexivity.
+  destruct v; cbn; try discriminate. intros H. apply andb_prop in H. destruct H as [H1 H2].
+  apply N.eqb_eq in H1. subst. rewrite IH by exact H2. reflexivity.
 Qed.
 
-Lemma concat_items_map vs :
-  vs <> [] -> same_types TMap vs = true -> concat_items vs = res_map CMap (concat_maps_top (maps vs)).
+Lemma dmaps_of_all_maps mt vs : same_types (TMap mt) vs = true -> dmaps (maps vs) = depth_list vs.
+Proof.
+  unfold dmaps, maps, depth_list. induction vs as [|v vs IH]; cbn; [reflexivity|].
+  destruct v; cbn; try discriminate. intros H. apply andb_prop in H. destruct H as [_ H2].
+  rewrite IH by exact H2. reflexivity.
+Qed.
+
+Lemma concat_items_map mt vs :
+  vs <> [] -> same_types (TMap mt) vs = true ->
+  concat_items vs = res_map (CMap mt) (concat_maps_top (maps vs)).
 Proof.
   intros Hne Hs. destruct vs as [|v0 l]; [congruence|].
   pose proof (same_types_In _ _ v0 Hs ltac:(now left)) as H0.
-  unfold concat_items. rewrite H0. unfold concat_maps_top, dmaps.
-  rewrite maps_of_all_maps by exact Hs. reflexivity.
+  unfold concat_items. rewrite H0. unfold concat_maps_top.
+  rewrite (dmaps_of_all_maps mt) by exact Hs. reflexivity.
 Qed.
 
+Definition not_map (t : cty) : Prop := match t with TMap _ => False | _ => True end.
+
 Lemma concat_items_other t vs :
-  vs <> [] -> t <> TMap -> same_types t vs = true ->
+  vs <> [] -> not_map t -> same_types t vs = true ->
   concat_items vs = concat_typed (fun _ => Err 0%N) t vs.
 Proof.
   intros Hne Ht Hs. destruct vs as [|v0 l]; [congruence|].
   pose proof (same_types_In _ _ v0 Hs ltac:(now left)) as H0.
-  unfold concat_items. rewrite H0. destruct t; try reflexivity. congruence.
+  unfold concat_items. rewrite H0. destruct t; try reflexivity. contradiction.
 Qed.
 
-Lemma nonmap_depth t v : dyn_ty v = Some t -> t <> TMap -> depth v = 0.
-Proof. destruct v; cbn; intros H Ht; try reflexivity. inversion H. congruence. Qed.
+Lemma nonmap_depth t v : dyn_ty v = Some t -> not_map t -> depth v = 0.
+Proof. destruct v; cbn; intros H Ht; try reflexivity. inversion H. subst. contradiction. Qed.
 
 Lemma items_rechunk t xs ys :
   xs <> [] -> same_types t (xs ++ ys) = true ->
@@ -662,18 +673,12 @@ Proof.
   intros Hne Hs.
   assert (Hne' : xs ++ ys <> []) by (destruct xs; [congruence|discriminate]).
   pose proof Hs as Hs'. rewrite same_types_app in Hs'. apply andb_prop in Hs'. destruct Hs' as [Hx Hy].
-  destruct (cty_eqb t TMap) eqn:Et.
-  - apply cty_eqb_eq in Et. subst t.
-    rewrite (concat_items_map xs Hne Hx), (concat_items_map (xs ++ ys) Hne' Hs).
-    pose proof (concat_maps_rechunk (maps xs) (maps ys)) as H. unfold rechunk_ok in H.
-    rewrite maps_app.
-    destruct (concat_maps_top (maps xs)) as [c| |]; cbn [res_map].
-    + split; [reflexivity|]. rewrite concat_items_map; [|discriminate|].
-      * cbn [maps flat_map app]. apply req_res_map. exact H.
-      * rewrite (same_types_cons TMap (CMap c) ys eq_refl). exact Hy.
-    + apply fails_res_map, H.
-    + apply fails_res_map, H.
-  - assert (Ht : t <> TMap) by (intros ->; cbn in Et; discriminate).
+  assert (Hnm : not_map t ->
+    match concat_items xs with
+    | Ok c => dyn_ty c = Some t /\ req (concat_items (c :: ys)) (concat_items (xs ++ ys))
+    | _ => fails (concat_items (xs ++ ys))
+    end).
+  { intros Ht.
     rewrite (concat_items_other t xs Hne Ht Hx), (concat_items_other t (xs ++ ys) Hne' Ht Hs).
     assert (Hb : vbounded 1 (xs ++ ys)).
     { unfold vbounded. apply Forall_forall. intros v Hin.
@@ -682,7 +687,17 @@ Proof.
     destruct (concat_typed _ t xs) as [c| |]; [|exact H|exact H].
     destruct H as [Hty H]. split; [exact Hty|].
     rewrite (concat_items_other t (c :: ys)); [exact H|discriminate|exact Ht|].
-    rewrite (same_types_cons _ _ _ Hty). exact Hy.
+    rewrite (same_types_cons _ _ _ Hty). exact Hy. }
+  destruct t as [|k|tag|mt]; try (apply Hnm; exact I). clear Hnm.
+  rewrite (concat_items_map mt xs Hne Hx), (concat_items_map mt (xs ++ ys) Hne' Hs).
+  pose proof (concat_maps_rechunk (maps xs) (maps ys)) as H. unfold rechunk_ok in H.
+  rewrite maps_app.
+  destruct (concat_maps_top (maps xs)) as [c| |]; cbn [res_map].
+  - split; [reflexivity|]. rewrite (concat_items_map mt); [|discriminate|].
+    + cbn [maps flat_map app]. apply req_res_map. exact H.
+    + rewrite (same_types_cons (TMap mt) (CMap mt c) ys eq_refl). exact Hy.
+  - apply fails_res_map, H.
+  - apply fails_res_map, H.
 Qed.
 
 (* what concatStreamReader computes: single-chunk shortcut, then ConcatItems *)
